@@ -92,11 +92,18 @@ theorem renderBlockOf_good' {body : Run} (hb : GoodRun body) (ctx : Scope) (st :
     Good (fun _ => False) ctx st (renderBlockOf body ctx st).1 ∧ (renderBlockOf body ctx st).1.st.out = st.out := by
   unfold renderBlockOf
   have h := walkBlockOf_good' hb ctx { st with out := [] }
-  refine ⟨⟨h.np, h.ctx_eq, ?_⟩, rfl⟩
+  refine ⟨⟨h.np, h.ctx_eq, ?_⟩, by simp⟩
   have e0 : Ext (fun _ => False) st { st with out := [] } := Ext.of_heap_eq rfl rfl
-  have e2 : Ext (fun _ => False) (walkBlockOf body ctx { st with out := [] }).st
-      { (walkBlockOf body ctx { st with out := [] }).st with out := st.out } := Ext.of_heap_eq rfl rfl
-  exact (e0.trans h.ext (fun _ _ h => h)).trans e2 (fun _ _ h => h)
+  exact (e0.trans h.ext (fun _ _ h => h)).trans (Ext.of_heap_eq (by simp) (by simp)) (fun _ _ h => h)
+
+/-- what `renderBlockOf` is in terms of the walk on the buffer (the node aside) -/
+theorem renderBlockOf_facts (body : Run) (ctx : Scope) (st : St) :
+    (renderBlockOf body ctx st).1.cls = (walkBlockOf body ctx { st with out := [] }).cls ∧
+    (renderBlockOf body ctx st).1.ctx = (walkBlockOf body ctx { st with out := [] }).ctx ∧
+    (renderBlockOf body ctx st).1.st.heap = (walkBlockOf body ctx { st with out := [] }).st.heap ∧
+    (renderBlockOf body ctx st).1.st.out = st.out ∧
+    (renderBlockOf body ctx st).2 = bufBytes (walkBlockOf body ctx { st with out := [] }).st.out := by
+  simp [renderBlockOf]
 
 /-! ### the foreach loop -/
 
